@@ -22,12 +22,13 @@
     PARTIAL in two respects, both stated in DESIGN.md: the filter theorem is
     for max_trace_length = 0 (with a bound the filtered run stops later in
     simulated time; the monitor checks the prefix relation on generated runs),
-    and totality is for total clocks: std::time::Duration additions inside the
-    embedded frameworks can overflow beyond 2^64 s of accumulated blocking
-    (known finding F6 of C01), which is a framework panic, not a simulator one. *)
+    and [C19_no_assertion] is for total clocks; for the real std clock
+    [C19_std_clock] shows that the only possible panic is the Duration overflow
+    inside an embedded framework beyond 2^64 s of accumulated blocking (known
+    finding F6 of C01), never one of the simulator's assertions. *)
 From MB Require Import Model.Framework Model.Sim.
 From MB Require Import Proofs.FrameworkInv Proofs.FrameworkTotal.
-From MB Require Proofs.SimBasics Proofs.SimTotal.
+From MB Require Proofs.SimBasics Proofs.SimTotal Proofs.SimTotalStd.
 Import ListNotations.
 Open Scope N_scope.
 
@@ -44,6 +45,17 @@ Theorem C19_no_assertion : forall fuel cc sc tp sq delay pps args k,
   sim_advanced fuel cc sc tp sq delay pps args <> Panic k.
 Proof. exact SimTotal.sim_advanced_no_panic. Qed.
 Print Assumptions C19_no_assertion.
+
+
+(** with the real std clock: the only panic that can ever come out of a simulation is the Duration
+    overflow inside an embedded framework (finding F6); no simulator assertion, unwrap or index fails *)
+Theorem C19_std_clock : forall fuel cc sc tp sq delay pps args k,
+  clk cc = stdclock -> clk sc = stdclock ->
+  machines_ok cc -> nonempty_ok cc -> machines_ok sc -> nonempty_ok sc ->
+  SimTotal.wf_simq sq -> sq_first_time sq <> None ->
+  sim_advanced fuel cc sc tp sq delay pps args = Panic k -> k = P_DURATION.
+Proof. exact SimTotalStd.sim_advanced_std. Qed.
+Print Assumptions C19_std_clock.
 
 (** the hypotheses are satisfiable: every parsed non-empty trace is a well-formed queue, and a
     configuration without machines over the harness clock is admissible *)
